@@ -435,3 +435,26 @@ Definition go_chk (c : gcase) : bool :=
       Nat.eqb (length a) np && Nat.eqb (length b) nn
     end
   end.
+
+(* ---- correspondence for spans (C23): makeSpan on the positions of the first and the last token of a
+   location, and the well-formedness of the span the implementation wrote ---- *)
+Definition span_okb (nlines : nat) (sp : list Z) : bool :=
+  match sp with
+  | [l; c; ec] => ((0 <=? l) && (l <? Z.of_nat nlines) && (0 <=? c) && (c <=? ec))%Z
+  | [l; c; el; ec] => ((0 <=? l) && (l <? el) && (el <? Z.of_nat nlines) && (0 <=? c) && (0 <=? ec))%Z
+  | _ => false
+  end.
+
+Fixpoint list_Z_eqb (a b : list Z) : bool :=
+  match a, b with
+  | [], [] => true
+  | x :: a', y :: b' => Z.eqb x y && list_Z_eqb a' b'
+  | _, _ => false
+  end.
+
+Record span_case := mkspancase {
+  sc_start : nat * nat; sc_end : nat * nat;     (* Start of the first token, End of the last token *)
+  sc_nlines : nat; sc_span : list Z }.
+
+Definition span_chk (c : span_case) : bool :=
+  list_Z_eqb (make_span (sc_start c) (sc_end c)) (sc_span c) && span_okb (sc_nlines c) (sc_span c).
